@@ -327,6 +327,13 @@ fn gen(bits: u32) -> Vec<Ty> {
     if f(0) && f(9) {
         main.conns.push(Conn { a: acc("c[0]/h[1]"), b: acc("a/h[0]"), link: false });
     }
+    if f(0) && f(15) {
+        // endpoints three segments deep: a grandchild's gate, plain and through clusters
+        main.conns.push(Conn { a: acc("m/s/h[0]"), b: acc("a/h[1]"), link: f(10) });
+        if f(3) {
+            main.conns.push(Conn { a: acc("m/k/h[1]"), b: acc("c/h[0]"), link: false });
+        }
+    }
     types.push(main);
     types
 }
@@ -548,7 +555,7 @@ impl Property for C18 {
     }
     fn rule(&self, tier: Tier) -> String {
         format!(
-            "conformance: all 2^{NBITS} = 65536 documents of the feature-bit grammar (cluster gates, generic Mid with type argument, inherited argument type, several fields typed with the same parameter, submodule clusters incl. size one, a type inheriting gates / submodules / connections with and without own additions, nested/cluster/indexed connections with and without link, inherited cluster element type, cluster-to-cluster and indexed connections at the top level, the same gate pair stated twice: verbatim, as an indexed restatement of a group statement, and by a child type restating an inherited connection) built with nodes_from_ndl and compared with a reference elaborator (modules with registered software, gate clusters, connections incl. link metrics and queue size); \
+            "conformance: all 2^{NBITS} = 65536 documents of the feature-bit grammar (cluster gates, generic Mid with type argument, inherited argument type, several fields typed with the same parameter, submodule clusters incl. size one, a type inheriting gates / submodules / connections with and without own additions, nested/cluster/indexed connections with and without link, inherited cluster element type, cluster-to-cluster and indexed connections at the top level, the same gate pair stated twice: verbatim, as an indexed restatement of a group statement, and by a child type restating an inherited connection, endpoints three segments deep (a grandchild's gate, plain and through clusters)) built with nodes_from_ndl and compared with a reference elaborator (modules with registered software, gate clusters, connections incl. link metrics and queue size); \
              semantic mutations: {} single-point mutations (one per error cause of the statement) applied to {} generated documents, each must yield an error; \
              textual mutations: every scalar of {} base documents replaced by each of {} garbled/dangling tokens, outcome must be a network or an error, never a panic; \
              non-trivial = document that has at least one connection (conformance) or every mutated document (totality)",
